@@ -50,6 +50,7 @@ From Verif Require Import Common Json JsonText JsonText_Proofs C12_Model C12_Spe
 From Verif Require Import C12_ConcModel C12_ConcSpec C12_ConcProofs.
 From Verif Require Import C12_FsModel C12_FsSpec C12_FsProofs.
 From Verif Require Import C12_PlaceModel C12_PlaceSpec C12_PlaceProofs.
+From Verif Require Import C12_BoundModel C12_BoundSpec C12_BoundProofs.
 Open Scope N_scope.
 
 (* all temporary files of an execution are deleted when it ends, whatever the outcome —
@@ -669,4 +670,107 @@ Example C12_place_hyp_met :
   /\ P_place1 ex_place (mkPO [3; 5] false [] 0 0 None false 0) = false
   (* a dangling entry and a link to a directory do not start *)
   /\ l_started (launch ex_tree [7; 1; 3; 9]) = false /\ l_started (launch ex_tree [7; 1; 3]) = false.
+Proof. vm_compute. repeat split; reflexivity. Qed.
+
+(* ------------------------------------------------------------------------------------------------------------ *)
+(* WHERE in an output file a malformation sits relative to how the parsers read: files  first document ++ tail,
+   the first document of ANY length (encoding/json's Decoder reads 512 bytes, then 1024, 2048 ... more: what
+   follows the document may or may not have been read when the document ends), ANY tail.
+   C12_BoundModel / C12_BoundSpec / C12_BoundProofs. *)
+
+(* JSON reader: exactly one document (an object), then t: one document iff t is white space only *)
+Theorem C12_json_object_then_tail : forall d j t, parse_single d = Some j -> is_obj j = true ->
+  parse_single (d ++ t) = (if all_ws t then Some j else None)
+  /\ parse_stream (d ++ t) = option_map (cons j) (parse_stream t).
+Proof. exact (fun d j t H O => conj (single_app d j t H O) (stream_app d j t H O)). Qed.
+Print Assumptions C12_json_object_then_tail.
+
+(* admission.ResponseFromFile / conversion.ResponseFromFile (code side alone): first document of any length,
+   any tail: accepted iff the document alone is accepted and the tail is white space only *)
+Theorem C12_admission_first_then_tail : forall d j t, parse_single d = Some j -> is_obj j = true ->
+  admission_ok (d ++ t) = admission_ok d && all_ws t.
+Proof. exact admission_ok_app. Qed.
+Print Assumptions C12_admission_first_then_tail.
+
+Theorem C12_conversion_first_then_tail : forall d j t, parse_single d = Some j -> is_obj j = true ->
+  conversion_ok (d ++ t) = conversion_ok d && all_ws t.
+Proof. exact conversion_ok_app. Qed.
+Print Assumptions C12_conversion_first_then_tail.
+
+(* MetricOperationsFromFile: the operation of the first document, then the operations of the tail (the tail
+   must itself be a metrics file) *)
+Theorem C12_metrics_first_then_tail : forall d j t, parse_single d = Some j -> is_obj j = true ->
+  metrics_ops (d ++ t) =
+    match option_map op_of_state (decode_struct metric_schema j), metrics_ops t with
+    | Some o, Some os => Some (o :: os)
+    | _, _ => None
+    end.
+Proof. exact metrics_ops_app. Qed.
+Print Assumptions C12_metrics_first_then_tail.
+
+(* the object-patch file (JSON path): a documented first operation, then t: the kind is decided by t alone *)
+Theorem C12_patch_first_then_tail : forall d j t, parse_single d = Some j -> patch_documented j = true ->
+  patch_text_kind (d ++ t) =
+    match parse_stream t with
+    | Some docs => if forallb patch_doc_ok docs then FValid else FWrongType
+    | None => FTruncated
+    end.
+Proof. exact patch_kind_app. Qed.
+Print Assumptions C12_patch_first_then_tail.
+
+(* the execution: an admission / conversion response file holding a well-formed first document of ANY length and
+   then t, exit code 0: the execution succeeds iff t is white space only *)
+Theorem C12_bound_response_accepted_iff_ws_tail : forall b,
+  single_file (bi_file b) = true -> first_wf b = Some true -> bi_exit b = 0%Z ->
+  (o_success (exec_bound b) = true <-> all_ws (b_tail b) = true).
+Proof. exact bound_single_accepted_iff. Qed.
+Print Assumptions C12_bound_response_accepted_iff_ws_tail.
+
+(* all four files: the execution succeeds iff the tail is an acceptable continuation (text side) *)
+Theorem C12_bound_accepted_iff_tail : forall b v,
+  first_wf b = Some true -> tail_verdict b = Some v -> bi_exit b = 0%Z ->
+  (o_success (exec_bound b) = true <-> v = true).
+Proof. exact bound_stream_accepted_iff. Qed.
+Print Assumptions C12_bound_accepted_iff_tail.
+
+(* trailing white space is no malformation: the outcome is that of the first document alone *)
+Theorem C12_bound_ws_tail_irrelevant : forall b,
+  first_wf b = Some true -> all_ws (b_tail b) = true ->
+  o_success (exec_bound b) = o_success (exec_bound (first_only b)).
+Proof. exact bound_ws_tail_irrelevant. Qed.
+Print Assumptions C12_bound_ws_tail_irrelevant.
+
+(* the model satisfies the clause of the class for EVERY first document and tail (no hypotheses) *)
+Theorem C12_bound_model_P : forall b o, P_bound b (model_bound_obs b o) = true.
+Proof. exact bound_model_P. Qed.
+Print Assumptions C12_bound_model_P.
+
+(* {"allowed":true + 496 spaces + } = 512 bytes (one read of the Decoder, to the byte), then \n{"allowed":false} *)
+Definition ex_bound_first : list bseg :=
+  [([123; 34; 97; 108; 108; 111; 119; 101; 100; 34; 58; 116; 114; 117; 101], 1); ([32], 496); ([125], 1)].
+Definition ex_bound_tail : list bseg :=
+  [([10; 123; 34; 97; 108; 108; 111; 119; 101; 100; 34; 58; 102; 97; 108; 115; 101; 125], 1)].
+Definition ex_bound : binput := mkBI file_admission ex_bound_first ex_bound_tail 0.
+Definition ex_bound_ws : binput := mkBI file_admission ex_bound_first [([10; 32; 9; 13], 3)] 0.
+Definition ex_bound_obs (ok : bool) : observation :=
+  mkOb true true true true true true 5 (if ok then 0 else 1) 0 false false false
+       [[(var_context, Some (Own file_context)); (var_metrics, Some (Own file_metrics)); (var_patch, Some (Own file_patch));
+         (var_admission, Some (Own file_admission)); (var_conversion, Some (Own file_conversion))]] false.
+Example C12_bound_hyp_met :
+  N.of_nat (length (b_first ex_bound)) = 512
+  /\ single_file (bi_file ex_bound) = true /\ first_wf ex_bound = Some true /\ bi_exit ex_bound = 0%Z
+  /\ all_ws (b_tail ex_bound) = false /\ tail_verdict ex_bound = Some false
+  /\ o_success (exec_bound ex_bound) = false
+  /\ all_ws (b_tail ex_bound_ws) = true /\ tail_verdict ex_bound_ws = Some true
+  /\ o_success (exec_bound ex_bound_ws) = true
+  (* the clause is not vacuous: a successful run on the two-verdict file violates it, a failed one on the
+     file with trailing white space as well *)
+  /\ P_bound ex_bound (ex_bound_obs false) = true /\ P_bound ex_bound (ex_bound_obs true) = false
+  /\ P_bound ex_bound_ws (ex_bound_obs true) = true /\ P_bound ex_bound_ws (ex_bound_obs false) = false
+  (* the other three files *)
+  /\ first_wf (mkBI file_patch [(patch_valid_bytes, 1)] [] 0) = Some true
+  /\ tail_verdict (mkBI file_patch [(patch_valid_bytes, 1)] [([32], 700); ([125], 1)] 0) = Some false
+  /\ tail_verdict (mkBI file_patch [(patch_valid_bytes, 1)] [(patch_valid_bytes, 2)] 0) = Some true
+  /\ o_success (exec_bound (mkBI file_patch [(patch_valid_bytes, 1)] [([32], 700); ([125], 1)] 0)) = false
+  /\ o_patch_applied (exec_bound (mkBI file_patch [(patch_valid_bytes, 1)] [(patch_valid_bytes, 2)] 0)) = true.
 Proof. vm_compute. repeat split; reflexivity. Qed.
